@@ -1,5 +1,6 @@
 import IRModel.Lemmas.WrapGlue
 import IRModel.Lemmas.WrapC05
+import IRModel.Lemmas.WrapC07
 /-!
 # Wrapper-level theorems (per-protocol `encode()` / `decode()` bodies inside the model)
 
@@ -38,6 +39,18 @@ theorem C05_wrapper (t : Tables) (w : Wrapper) (tol : Match.Tol) (htol : tol.ok)
   obtain ⟨p, hS⟩ := c05OK_spec t w hok
   exact C05_wrapper_spec t w tol htol hw p hS V hfit
 
+/-- **C07 at wrapper level**, from the kernel-checked obligation of one protocol (any table shape the engine model
+    covers, not only class A): whatever well-formed code is held, a frame longer than a repeat marker is answered by
+    `decode()` — base decoder, then the traced tree for "a key is held" with its `_last_code` shortcuts — with the same
+    rejection as by a decoder without history, or with a code reporting the same parameters; never with the held key's. -/
+theorem C07_wrapper (t : Tables) (w : Wrapper) (hok : c07OK t w = true) (inst : Inst) (l : CodeV) (hl : inst.last = some l)
+    (hwf : WFCode t l) (data : List Int) (hlong : data.length > t.repeatLeadIn.length + t.repeatLeadOut.length) :
+    match (decodeP t w inst data).result, (decodeP t w { last := none, tol := inst.tol } data).result with
+    | .ok c, .ok c' => ∀ ep ∈ t.encodeParams, c.get (Props.C01.viewKey ep.1) = c'.get (Props.C01.viewKey ep.1)
+    | .error e, .error e' => e = e'
+    | _, _ => False :=
+  C07_wrapper_spec t w (c07OK_spec t w hok) inst l hl hwf data hlong
+
 /-- non-vacuity: a two-field toy protocol (pulse distance, 8-bit function + its complement, `decode()` re-checks the
     complement) meets both obligations -/
 def toyT : Tables :=
@@ -55,9 +68,22 @@ def toyW : Wrapper :=
     treeNone := .ite (.cmp .ne (.slice (.field "F") .compl (some 8) (some 0)) (.field "F_CHECKSUM"))
                   (.leaf [] (.raise "DecodeError"))
                   (.leaf [.setLastCode] (.ret [("F", .field "F"), ("F_CHECKSUM", .field "F_CHECKSUM")] true)),
-    treeSome := .leaf [] .retOther }
+    treeSome := .ite (.cmp .ne (.slice (.field "F") .compl (some 8) (some 0)) (.field "F_CHECKSUM"))
+                  (.leaf [] (.raise "DecodeError"))
+                  (.ite .lastEq (.leaf [] .retLast)
+                    (.leaf [.stopLast, .setLastNone, .setLastCode] (.ret [("F", .field "F"), ("F_CHECKSUM", .field "F_CHECKSUM")] true))) }
 
-example : wfAll toyT ⟨20, 1⟩ = true ∧ c01OK toyT toyW = true ∧ c05OK toyT toyW = true := by decide +kernel
+example : wfAll toyT ⟨20, 1⟩ = true ∧ c01OK toyT toyW = true ∧ c05OK toyT toyW = true ∧ c07OK toyT toyW = true := by decide +kernel
+
+/-- the held-key shortcut moved in front of the complement check (a frame with a corrupted complement then returns the
+    held key) fails the C07 obligation -/
+def toyShortcutFirst : DTree :=
+  .ite .lastEq (.leaf [] .retLast)
+    (.ite (.cmp .ne (.slice (.field "F") .compl (some 8) (some 0)) (.field "F_CHECKSUM"))
+      (.leaf [] (.raise "DecodeError"))
+      (.leaf [.stopLast, .setLastNone, .setLastCode] (.ret [("F", .field "F"), ("F_CHECKSUM", .field "F_CHECKSUM")] true)))
+
+example : c07OK toyT { toyW with treeSome := toyShortcutFirst } = false := by decide +kernel
 
 /-- and the same toy protocol WITHOUT the complement check in `decode()` fails the C05 obligation (the unchecked field is
     not forced by any comparison) while still meeting the C01 one -/
